@@ -1,4 +1,5 @@
 import WK.Proofs.C09_WF
+import WK.Proofs.C09_Idx
 import WK.Gen.C09
 /-
   C09 — storage mutations are crash-atomic.  Class PR.
@@ -28,9 +29,10 @@ import WK.Gen.C09
     * necessity: a mutation split into two batches has a crash state that
       violates the store invariant (`c09_split_not_atomic`), and an unsynced
       commit can be lost after it was acknowledged (`c09_unsynced_can_be_lost`).
-  The cross-entry clauses of `StoreInv` (rows ⇔ index entries, HW ≤ recovered
-  LEO, frontier loads) are NOT proved preserved here; they are evaluated by the
-  judge on every store and every post-crash store the implementation produces.
+  Cross-entry clauses of `StoreInv`: key uniqueness (`c09_each_prefix_nodup`) and rows ⇔ index
+  entries (`c09_each_prefix_idx`, `c09_each_prefix_rows_complete`, for histories with fresh records)
+  are proved at every crash point.  Still only judged on the implementation's dumps: HW ≤ recovered
+  LEO, retention floor vs rows, proposal pairs / entry identities and the frontier of the exact channel.
 -/
 namespace WK.C09
 open WK.Gen.C09
@@ -126,6 +128,40 @@ theorem c09_each_prefix_wf (ops : List Op) (k : Nat) :
 /-- non-vacuity: a history that writes checkpoint, retention state and cursor -/
 example : get (run [] [.fetch 1 (some 1) [⟨7, 1, 2, 0, 3⟩], .adopt 1 1, .trim 1 1 1]) (.ret 1) = some (.ret 1 1 1) := by
   decide
+
+/-! ### cross-entry clauses at every crash point -/
+
+/-- keys stay unique at every crash point of every history -/
+theorem c09_each_prefix_nodup (ops : List Op) (k : Nat) : NoDup (applyCommits [] ((commitsOf [] ops).take k)) :=
+  c09_each_prefix_inv NoDup [] (by simp [NoDup]) (fun s op h => noDup_stepG s op h) ops k
+
+/-- ROWS ⇔ INDEXES at every crash point: for every history whose appends carry fresh records at the
+    point where they are issued (`HistFresh`: non-zero pairwise distinct message ids absent from the
+    global id index, pairwise distinct idempotency keys absent from the channel's index — what
+    `validateAppendRow` checks in strict mode and what the allocator / leader guarantee in the other
+    modes), every prefix of the committed batches satisfies `IdxInv`: each index entry names a stored
+    row with the same fields and each stored row has all of its index entries. -/
+theorem c09_each_prefix_idx (ops : List Op) (k : Nat) (hf : HistFresh [] ops) :
+    IdxInv (applyCommits [] ((commitsOf [] ops).take k)) := by
+  obtain ⟨j, _, he⟩ := commit_prefix_is_clean_prefix [] ops k
+  rw [he]
+  exact idxInv_run _ [] idxInv_empty (histFresh_take ops [] j hf)
+
+/-- …so the Bool judge's row-completeness clause holds there (tie between the lookup invariant and
+    the predicate the driver evaluates on the implementation's dumps) -/
+theorem c09_each_prefix_rows_complete (ops : List Op) (k : Nat) (hf : HistFresh [] ops) :
+    (applyCommits [] ((commitsOf [] ops).take k)).all (rowComplete (applyCommits [] ((commitsOf [] ops).take k))) = true :=
+  rowComplete_of_idxInv _ (c09_each_prefix_nodup ops k) (c09_each_prefix_idx ops k hf)
+
+/-- non-vacuity: an append of two records followed by a truncation is a fresh history -/
+example : HistFresh [] [.app 1 0 [⟨7, 1, 2, 0, 3⟩, ⟨8, 0, 4, 4, 0⟩], .trunc 1 1] := by
+  refine ⟨?_, trivial, trivial⟩
+  constructor <;> simp [get, List.lookup]
+
+/-- necessity of freshness: a trusted append that reuses a stored message id overwrites the global id
+    entry, and the older row loses its index entry -/
+example : ¬ StoreInv (run [] [.app 1 2 [⟨7, 0, 0, 0, 1⟩], .app 2 2 [⟨7, 0, 0, 0, 2⟩]]) := by
+  unfold StoreInv; decide
 
 /-- ACKNOWLEDGED ⇒ DURABLE, with at most one mutation in flight: after the mutations `acked`
     returned and while `op` is executing, the crash state is the store after `acked` or the store
